@@ -22,6 +22,9 @@ var vProbes map[string]*vProbe
 var vProbeOf map[*gohealth.Health]*vProbe
 var vProbeMu sync.Mutex
 
+// vProbeStarted announces every start of a probe scheduler (buffered)
+var vProbeStarted chan string
+
 func vHealthNew() *gohealth.Health { return &gohealth.Health{} }
 func vHealthDisableLogging(h *gohealth.Health) {}
 func vHealthAddCheck(h *gohealth.Health, cfg *gohealth.Config) error {
@@ -40,6 +43,10 @@ func vHealthStart(h *gohealth.Health) error {
 			return gohealth.ErrAlreadyRunning
 		}
 		p.running = true
+		select {
+		case vProbeStarted <- p.name:
+		default:
+		}
 	}
 	return nil
 }
@@ -59,6 +66,7 @@ func vHealthStop(h *gohealth.Health) error {
 func vBindHealth() {
 	vProbes = map[string]*vProbe{}
 	vProbeOf = map[*gohealth.Health]*vProbe{}
+	vProbeStarted = make(chan string, 16)
 	verifSetGlobal("github.com/InVisionApp/go-health/v2", "ErrAlreadyRunning", errors.New("Healthcheck is already running - nothing to start"))
 	verifSetGlobal("github.com/InVisionApp/go-health/v2", "ErrAlreadyStopped", errors.New("Healthcheck is not running - nothing to stop"))
 	verifBind("github.com/InVisionApp/go-health/v2.New", vHealthNew)
